@@ -1,14 +1,17 @@
-// prelude/policy.rs — TRUSTED. Runtime policy object and proof-type tags as opaque values.
+// prelude/policy.rs — runtime Policy extracted from /repo; proof-type tags as opaque values (TRUSTED stubs for the tags).
 verus! {
-#[verifier::external_body]
-pub struct Policy { inner: Box<u8> }
 #[derive(Clone, Copy, PartialEq, Eq, Debug, Structural)]
 pub struct RegisteredPoStProof { pub id: i64 }
 #[derive(Clone, Copy, PartialEq, Eq, Debug, Structural)]
 pub struct RegisteredSealProof { pub id: i64 }
+#[verifier::external_body]
+pub struct ProofSet { inner: Box<u8> }
+//@ item runtime/src/runtime/policy.rs Policy
+/// the network policy is a constant of the activation
+pub uninterp spec fn rt_policy() -> Policy;
 impl Rt {
     #[verifier::external_body]
-    pub fn policy(&self) -> (r: &'static Policy) { unimplemented!() }
+    pub fn policy(&self) -> (r: &'static Policy) ensures *r == rt_policy() { unimplemented!() }
 }
 impl BigInt {
     /// num-bigint: checked_sub on a signed BigInt never fails
